@@ -14,6 +14,11 @@
 //!  * the run is projected onto the events of the protocol skeleton (ConserveModel/Protocol.lean)
 //!    and compared with the skeleton's prediction (who refused, which versions dangle, final
 //!    bands / blocks, event sequences).
+//!
+//! The code under test contains the repair of defect D7 ("backup looks for the gc lock again after
+//! creating its band"): the skeleton is asked with `proto` (= `recheck = true`); the oracle
+//! signature `gc-race:dangling-in-new-version` is the finding that the repair removes and stays as
+//! an oracle: it must never fire.
 use crate::absarch::{abstract_archive, blake_hex};
 use crate::compare::*;
 use crate::conc::*;
@@ -174,12 +179,19 @@ fn label_backup(trace: &[String], g_prefix: &str, ids: &Ids) -> Vec<Vec<String>>
     let last_hunk = trace.iter().rposition(|l| { let p = parts(l); p[1] == "write" && p[2].contains("/i/") });
     let sub = format!("d/{g_prefix}");
     let lb = trace.iter().position(|l| { let p = parts(l); p[1] == "list" && p[2] == sub }).or_else(|| trace.iter().position(|l| { let p = parts(l); p[1] == "list" && p[2] == "d" }));
+    // The second lock check (src/backup.rs `backup`, right after `Band::create`): the first listing
+    // of the archive directory that comes after the band's `mkdir bNNNN` / `write bNNNN/BANDHEAD`
+    // (and before the listing of the blocks, when the backup gets that far).  The root listings
+    // before the `mkdir` are the basis lookup and the id allocation of `Band::create`.
+    let head_at = trace.iter().position(|l| { let p = parts(l); p[1] == "write" && p[2].ends_with("/BANDHEAD") });
+    let recheck_at = head_at.and_then(|h| trace.iter().enumerate().skip(h + 1).find(|(i, l)| { let p = parts(l); p[1] == "list" && p[2] == "." && lb.map(|b| *i < b).unwrap_or(true) }).map(|x| x.0));
     for (i, l) in trace.iter().enumerate() {
         let p = parts(l);
         let (verb, path) = (p[1], p[2]);
         let is_band = path.starts_with('b') && !path.contains('/');
         let ev = match verb {
             "stat" if path == "GC_LOCK" => Some("B.lockCheck".to_string()),
+            "list" if Some(i) == recheck_at => Some("B.lockCheck2".into()),
             "list" if path == "." => {
                 root_lists += 1;
                 if root_lists == 1 { Some("B.listBasis".into()) } else { Some("B.listId".into()) }
@@ -328,11 +340,17 @@ pub fn run(tier: &str, seed: u64, report: &mut Report) {
     let thorough = tier == "thorough";
     let started = Instant::now();
     let budget_s = if thorough { 270 } else { 50 };
-    let specs = [
+    let mut specs = vec![
         ScenarioSpec { name: "gc, one version", versions: 1, delete: vec![] },
         ScenarioSpec { name: "gc, two versions", versions: 2, delete: vec![] },
         ScenarioSpec { name: "delete oldest of two versions", versions: 2, delete: vec![0] },
     ];
+    if thorough || std::env::var("C06_EXTRA").is_ok() {
+        // the band the backup takes as its basis is deleted under it; when the delete finishes before
+        // the backup allocates its id, the backup reuses the id of the deleted band.  (Two
+        // unreferenced blocks: the order of their removal is the iteration order of a hash set.)
+        specs.push(ScenarioSpec { name: "delete newest of two versions (the basis)", versions: 2, delete: vec![1] });
+    }
     let rounds = if thorough { 3 } else { 1 };
     let mut minimal: Option<(usize, Value)> = None;
     let mut n_known = 0u64;
@@ -625,8 +643,24 @@ pub fn run(tier: &str, seed: u64, report: &mut Report) {
                 // deduplications have no storage operation; how many G.stat there are depends on where
                 // inside the multi-operation reference scan a concurrent hunk write falls (the run
                 // is refused by check() in all those cases), so they are not compared
+                // blocks are removed in the iteration order of a hash set: every run of consecutive
+                // G.rmBlock events is compared as a set
                 let strip = |evs: Vec<String>| -> Vec<String> {
-                    evs.into_iter().filter(|e| !(e.starts_with("B.block:") && e.ends_with(":d"))).filter(|e| !e.starts_with("G.stat:")).collect()
+                    let mut v: Vec<String> = evs.into_iter().filter(|e| !(e.starts_with("B.block:") && e.ends_with(":d"))).filter(|e| !e.starts_with("G.stat:")).collect();
+                    let mut i = 0;
+                    while i < v.len() {
+                        let mut j = i;
+                        while j < v.len() && v[j].starts_with("G.rmBlock:") {
+                            j += 1;
+                        }
+                        if j > i {
+                            v[i..j].sort();
+                            i = j;
+                        } else {
+                            i += 1;
+                        }
+                    }
+                    v
                 };
                 let sk_a = strip(get("A").split(' ').skip(1).map(|s| s.to_string()).collect());
                 let sk_b = strip(get("B ").split(' ').skip(1).map(|s| s.to_string()).collect());
